@@ -318,6 +318,19 @@ def run(rep: Report, tier: str) -> None:
             pairing(rep, "R16.4", fn, gq, "process-global Exceptions.dataset_output", acqn, resets, [gq.exit, gq.raise_exit], "dataset_output")
     rep.floor("writers of Exceptions.dataset_output", nset, 1)
     rep.analysed = {"functions_reachable_from_api": len(reach_api), "acquisition_sites": nacq, "connection_param_callees": nstore}
+    # ---- R16.5: nothing survives a failed (or earlier) run in the decimal configuration - decided by C30's history rule ----
+    rep.rule("R16.5", "a rejected or earlier decimal configuration does not persist into the next run (C30 R30.4 evaluated here too)")
+    from sa.checks import c30
+    sub = Report("C16", tier)
+    c30.run(sub, tier)
+    n30 = sub.rules.get("R30.4", {}).get("instances", 0)
+    rep.floor("R16.5 history probes", n30, 20)
+    rep.instances += n30
+    rep.rules["R16.5"]["instances"] += n30
+    rep.nontrivial.update(k.replace("R30.4", "R16.5") for k in sub.nontrivial if k.startswith("R30.4"))
+    for f_ in sub.findings:
+        if f_.rule == "R30.4":
+            rep.add(Finding("R16.5", f_.key.replace("R30.4", "R16.5"), f_.file, f_.line, f_.func, f_.message + " - a configuration error of one run() changes the outcome of the next"))
     rep.assumptions = ["any statement containing a call, subscript, arithmetic or yield may raise (over-approximation)",
                        "`if <res> is not None:` guarding a release is infeasible-false once the resource is bound",
                        "rmtree(ignore_errors=True) and close() are the release operations"]
